@@ -493,6 +493,7 @@ func c09Writer(k *core.Case) {
 	if placement == "cancel-blocked" {
 		opts.ctxFor = func(g, call int) context.Context { return ctx }
 	}
+	opts.rands = wForkRands(k, run.Cfg)
 	workloadDone := make(chan struct{})
 	go func() {
 		defer close(workloadDone)
